@@ -1,6 +1,7 @@
 """Shared pieces of the per-property checks."""
 import json
 import os
+import re
 
 import vlib
 
@@ -327,6 +328,30 @@ def apalache_leg(chk, what="AP_Kernels"):
     chk.cov["discharged"] = ok
     chk.cov["checker_cmd"] = "apalache-mc check --inv=<Contract> --length=1 [--next=<Next>] spec/mc/AP_*.tla"
     chk.cov["trusted_base"] = ["Apalache 0.58 / Z3", "the TLA+ transcription of the kernels (tied to the code by the native sweeps against the same contracts)"]
+
+
+def tlaps_leg(chk, module="API_proofs"):
+    """TLAPS proof (unbounded: any number of key objects and calls) of an inductive invariant of Layer A; every
+    obligation is re-proved from scratch (no fingerprint cache) in a scratch copy."""
+    import shutil
+    import subprocess
+    import time
+    d = os.path.join(chk.workdir, "tlaps")
+    shutil.rmtree(d, ignore_errors=True)
+    os.makedirs(d)
+    shutil.copy(os.path.join(vlib.VERIF, "spec", "proofs", module + ".tla"), d)
+    shutil.copy(os.path.join(vlib.VERIF, "spec", "API.tla"), d)
+    t0 = time.time()
+    try:
+        p = subprocess.run(["tlapm", "--threads", "6", "--cleanfp", module + ".tla"], cwd=d, stdout=subprocess.PIPE, stderr=subprocess.STDOUT, text=True, timeout=1500)
+    except subprocess.TimeoutExpired:
+        raise vlib.ToolError("tlapm timed out on " + module)
+    m = re.search(r"All (\d+) obligations? proved", p.stdout)
+    if not m:
+        raise vlib.ToolError("TLAPS proof %s is not complete (specification defect):\n%s" % (module, p.stdout[-2500:]))
+    chk.leg("tlaps:" + module, obligations_proved=int(m.group(1)), wall_s=round(time.time() - t0, 1),
+            theorem="ASpec => []DroppedIsZero for the API state machine with unconstrained arguments (no bound on keys or calls)")
+    shutil.rmtree(d, ignore_errors=True)
 
 
 # ---------------------------------------------------------------- generic judged traces (TraceRing, TraceCodec)
